@@ -33,13 +33,14 @@ type verifC16Client struct {
 	n             *QueryNode
 	starts, stops []time.Time
 	cmds          []string
-	point         time.Time
+	points        []time.Time // the point returned to the i-th query
 }
 
 func (c *verifC16Client) Ping(ctx context.Context) (time.Duration, string, error) { return 0, "", nil }
 func (c *verifC16Client) Write(bp influxdb.BatchPoints) error                    { return nil }
 func (c *verifC16Client) WriteV2(w influxdb.FluxWrite) error                     { return nil }
 func (c *verifC16Client) Query(q influxdb.Query) (*influxdb.Response, error) {
+	point := c.points[len(c.starts)]
 	c.starts = append(c.starts, c.n.query.StartTime())
 	c.stops = append(c.stops, c.n.query.StopTime())
 	c.cmds = append(c.cmds, q.Command)
@@ -47,7 +48,7 @@ func (c *verifC16Client) Query(q influxdb.Query) (*influxdb.Response, error) {
 		Name:    "cpu",
 		Tags:    map[string]string{"host": "a"},
 		Columns: []string{"time", "mean"},
-		Values:  [][]interface{}{{c.point, 1.5}},
+		Values:  [][]interface{}{{point, 1.5}},
 	}}}}}, nil
 }
 func (c *verifC16Client) QueryFlux(q influxdb.FluxQuery) (flux.ResultIterator, error) {
@@ -95,13 +96,16 @@ func VerifC16LiveTick(v *vrt.T) {
 	done := make(chan error, 1)
 	go func() { done <- qn.doQuery(in) }()
 
-	ticks := make([]time.Time, 2)
-	pts := make([]time.Time, 2)
+	nt := v.Bound("liveticks", 2)
+	ticks := make([]time.Time, nt)
+	pts := make([]time.Time, nt)
 	for i := range ticks {
 		ticks[i] = v.Time("tick", base-1000, base+1000)
 		// the series' point lies anywhere around the queried range
 		pts[i] = v.Time("point", base-3000, base+1000)
-		client.point = pts[i]
+	}
+	client.points = pts
+	for i := range ticks {
 		tk.c <- ticks[i]
 	}
 	v.Goroutines()
